@@ -161,9 +161,34 @@ def _value(node: ast.AST, env: Dict[str, object]):
         name = dotted(node.left)
         if name and f"bit:{name}" in env:
             return env[f"bit:{name}"]
+    if isinstance(node, ast.BinOp) and isinstance(node.op, ast.BitAnd) and _masked_by_one(node):
+        return _lowbit(node, env)
+    if isinstance(node, ast.Call) and dotted(node.func) in ("bool", "int") and len(node.args) == 1:
+        val = _value(node.args[0], env)
+        return bool(val) if dotted(node.func) == "bool" else int(val)
     if isinstance(node, (ast.BoolOp, ast.Compare)):
         return _truth(node, env)
     raise AnalysisError(f"segment machine: expression `{short(node)}` not supported")
+
+
+def _masked_by_one(node: ast.AST) -> bool:
+    """`a & b & ... & 1`: only the lowest bit of every operand matters."""
+    if isinstance(node, ast.BinOp) and isinstance(node.op, ast.BitAnd):
+        return _masked_by_one(node.left) or _masked_by_one(node.right)
+    return isinstance(node, ast.Constant) and node.value == 1
+
+
+def _lowbit(node: ast.AST, env: Dict[str, object]) -> int:
+    if isinstance(node, ast.Constant) and isinstance(node.value, int):
+        return node.value & 1
+    if isinstance(node, ast.Name) and f"bit:{node.id}" in env:
+        return int(env[f"bit:{node.id}"])  # type: ignore[arg-type]
+    if isinstance(node, ast.UnaryOp) and isinstance(node.op, ast.Invert):
+        return 1 - _lowbit(node.operand, env)
+    if isinstance(node, ast.BinOp) and isinstance(node.op, (ast.BitAnd, ast.BitOr, ast.BitXor)):
+        a, b = _lowbit(node.left, env), _lowbit(node.right, env)
+        return a & b if isinstance(node.op, ast.BitAnd) else a | b if isinstance(node.op, ast.BitOr) else a ^ b
+    raise AnalysisError(f"segment machine: bit expression `{short(node)}` not supported")
 
 
 def _truth(node: ast.AST, env: Dict[str, object]) -> bool:
@@ -243,16 +268,21 @@ def segment_machine(prog: Program) -> RuleResult:
 
     for edges in (True, False):
         construct = f"{SUBSEQ}:subseq_segment_dist/equivalent[edges={edges}]"
-        env0: Dict[str, object] = {p_edges: edges}
-        try:
-            _exec([st for st in pre if isinstance(st, ast.Assign)], env0)
-        except _Abort:
-            raise AnalysisError("subseq_segment_dist: initialisation returns")
-        bools = [n for n in state_names if isinstance(env0.get(n), bool)]
-        ints = [n for n in state_names if isinstance(env0.get(n), int) and not isinstance(env0.get(n), bool)]
+        def initial(bp0: int, bc0: int):
+            """state after the statements before the loop; they may look at the lowest bits of the masks"""
+            env0: Dict[str, object] = {p_edges: edges, f"bit:{p_child}": bc0, f"bit:{p_parent}": bp0}
+            try:
+                _exec([st for st in pre if isinstance(st, ast.Assign)], env0)
+            except _Abort:
+                raise AnalysisError("subseq_segment_dist: initialisation returns")
+            return env0
+
+        probe = initial(0, 0)
+        bools = [n for n in state_names if isinstance(probe.get(n), bool)]
+        ints = [n for n in state_names if isinstance(probe.get(n), int) and not isinstance(probe.get(n), bool)]
         if len(bools) + len(ints) != len(state_names):
             raise AnalysisError("subseq_segment_dist: a state variable is neither Boolean nor integer")
-        start = (tuple(env0[b] for b in bools), tuple(env0[i] for i in ints), 0, (not edges), False)
+        start = (None, None, 0, (not edges), False)
         seen = {start: ()}
         frontier = [start]
         problem = None
@@ -261,6 +291,10 @@ def segment_machine(prog: Program) -> RuleResult:
             bvals, idiffs, step_no, s_run, nonempty = cur
             path = seen[cur]
             for bp, bc in ((0, 0), (1, 0), (1, 1), (0, 1)):
+                if cur is start or bvals is None:
+                    env_i = initial(bp, bc)
+                    bvals = tuple(env_i[b] for b in bools)
+                    idiffs = tuple(env_i[i] for i in ints)
                 env = {p_edges: edges, f"bit:{p_child}": bc, f"bit:{p_parent}": bp}
                 env.update(dict(zip(bools, bvals)))
                 env.update({n: BASE + d for n, d in zip(ints, idiffs)})
